@@ -60,6 +60,9 @@ def configs(tier):
     for kind in KINDS:
         # the stream hands over the SAME dict object several times, and one observation has no label (y=None)
         cfgs.append(dict(group='repeated_objects', kind=kind, k=1 if kind == 'sequence' else 2, _cost=100))
+    for kind in ('interval', 'geometric'):
+        for new_size in (1, 2, 4):
+            cfgs.append(dict(group='resized', kind=kind, k=3, new_size=new_size, targets=True, _cost=100))
     cfgs.append(dict(group='bmc', kind='geometric', k=2, n=5, targets=True, p='sym', _cost=100))
     cfgs.append(dict(group='bmc', kind='geometric', k=2, n=5, targets=True, p='one', _cost=100))
     return cfgs
@@ -173,6 +176,33 @@ def _bmc(env, cfg):
     env.canary('len_shifted', len(st) == n + 1)
 
 
+def _resized(env, cfg):
+    """the public `size` attribute is changed on a storage that has been full (shrunk below / grown above what it holds), more
+    observations arrive: whatever capacity the storage then honours, it still holds only observed rows, each at most once,
+    and the i-th stored target belongs to the i-th stored instance (capacity itself is NOT claimed here)"""
+    kind, k = cfg['kind'], cfg['k']
+    if kind == 'interval':
+        st = IntervalStorage(size=k, store_targets=True)
+    else:
+        p = env.real('p')
+        env.assume(And(p >= 0, p <= 1))
+        st = GeometricReservoirStorage(size=k, store_targets=True, constant_probability=p)
+    arrived = []
+    for t in range(k + 3):
+        if t == k + 1:
+            st.size = cfg['new_size']
+        x, y = sym_row(env, NAMES, f"x{t}"), env.real(f"y{t}")
+        guarded(env, 'update', st.update, x, y)
+        arrived.append((x, y))
+        xs, ys = _content(st)
+        idx = _check_state(env, st, arrived, cfg, f"_n{t + 1}", len(xs))
+        if idx is None:
+            return
+        if kind == 'interval':
+            env.claim(f"newest_observation_stored_n{t + 1}", t in idx)
+    env.canary('len_shifted', len(st) == k + 4)
+
+
 def thorough_extra():
     """second engine (corroboration only): CrossHair on the real Interval / Batch / GeometricReservoir storages"""
     from .crosshair_run import run
@@ -267,3 +297,5 @@ def _repeated_objects(env, cfg):
 
 
 META['explanation'] += ' repeated_objects: streams that hand over the same dict object several times and contain an unlabelled observation.'
+
+META['explanation'] += ' resized: the public size attribute changed (shrunk / grown) on a storage that has been full, then more arrivals: observed rows only, each once, targets aligned (capacity not claimed).'
